@@ -106,6 +106,17 @@ func runNextUnderToggle(prop string, rep *Report, seed int64, idx int, r *rand.R
 	}()
 
 	var recent []string
+	nonToggled := func() []int {
+		b := []int{}
+		for _, x := range playableOf(viewSeats(m)) {
+			if !inInts(toggled, x) {
+				b = append(b, x)
+			}
+		}
+		return b
+	}
+	// C17: the seats that could play before the move, whatever the toggled ones were doing, and the button
+	prevBase, prevD := nonToggled(), dealerID(m)
 	for h := 0; h < hands; h++ {
 		var err error
 		var pan interface{}
@@ -122,11 +133,55 @@ func runNextUnderToggle(prop string, rep *Report, seed int64, idx int, r *rand.R
 			pan = fmt.Sprintf("(in the toggling goroutine) %v", togglePanic.Load())
 		}
 		if pan != nil {
-			rep.Violate(&Violation{Prop: prop, Rule: "C08/panic-under-concurrency", Cause: "toggle=" + mode, Msg: fmt.Sprintf("Next() panicked while another goroutine toggled seats %v: %v", toggled, pan), Kind: "conc",
+			rep.Violate(&Violation{Prop: prop, Rule: prop + "/panic-under-concurrency", Cause: "toggle=" + mode, Msg: fmt.Sprintf("Next() panicked while another goroutine toggled seats %v: %v", toggled, pan), Kind: "conc",
 				Case: &c08ConcCase{Max: max, Seated: seated, Toggled: toggled, Mode: mode, Hand: h, Recent: recent}, Seed: seed, CaseIndex: idx})
 			return
 		}
-		if err == nil {
+		if prop == "C17" {
+			rep.Inc("concurrent_next_checked")
+			rep.Inc("oracle_evaluations")
+			nd := dealerID(m)
+			cc := &c08ConcCase{Max: max, Seated: seated, Toggled: toggled, Mode: mode, Hand: h, Recent: recent,
+				Note: "not replayable step by step: it needs the other goroutine's operation to land inside Next(); re-run the check"}
+			if len(prevBase) >= 2 {
+				rep.Inc("class_two_or_more_playable_before")
+				if err != nil {
+					rep.Violate(&Violation{Prop: prop, Rule: "C17/refused-with-two-playable", Cause: "concurrent", Kind: "conc", Case: cc, Seed: seed, CaseIndex: idx,
+						Msg: fmt.Sprintf("table of %d, seats %v toggled (%s) by another goroutine: Next() refused (%v) although seats %v, which nobody touched, could play", max, toggled, mode, err, prevBase)})
+					return
+				}
+				if prevD >= 0 {
+					ok := false
+					var want []int
+					for mask := 0; mask < 1<<uint(len(toggled)); mask++ {
+						pp := append([]int{}, prevBase...)
+						for i, x := range toggled {
+							if mask&(1<<uint(i)) != 0 {
+								pp = append(pp, x)
+							}
+						}
+						e := firstAfter(pp, prevD, max)
+						want = append(want, e)
+						ok = ok || e == nd
+					}
+					rep.Inc("button_moves_checked")
+					if !ok {
+						rep.Violate(&Violation{Prop: prop, Rule: "C17/button", Cause: "concurrent", Kind: "conc", Case: cc, Seed: seed, CaseIndex: idx,
+							Msg: fmt.Sprintf("table of %d, seats %v toggled (%s) by another goroutine: button was on %d, untouched playable seats %v, moved to %d; for every status of the toggled seats the next player clockwise is one of %v", max, toggled, mode, prevD, prevBase, nd, want)})
+						return
+					}
+					if inInts(toggled, nd) {
+						rep.Inc("class_position_on_toggled_seat")
+					}
+					rep.Seen("nontrivial17", fmt.Sprint(max, prevD, prevBase, nd))
+				}
+			}
+			recent = append(recent, fmt.Sprintf("hand %d: button %d -> %d err=%v", h, prevD, nd, err))
+			if len(recent) > 6 {
+				recent = recent[1:]
+			}
+			prevBase, prevD = nonToggled(), nd
+		} else if err == nil {
 			rep.Inc("concurrent_next_checked")
 			rep.Inc("oracle_evaluations")
 			post := viewSeats(m)
